@@ -139,6 +139,8 @@ def cards(spec):
     elif leg == "absent-keys":
         del th["PTODIS"]
         del th["FONLLParts"]
+    elif leg == "unsorted-grid":
+        ob["interpolation_xgrid"] = [Fraction(1), Fraction(1, 4), Fraction(1, 2)]  # eko sorts: the grid used is ascending
     elif leg == "minimal":
         for k in spec["optional"]:
             th.pop(k, None)
@@ -151,6 +153,7 @@ def _job(spec):
 
     proj = model.project()
     cell, th, ob = cards(spec)
+    leg = spec["legacy"]
     before_t, before_o = deep_clone(th), deep_clone(ob)
     ids_before = set(container_ids(th)) | set(container_ids(ob))
     problems = []
@@ -213,8 +216,11 @@ def _job(spec):
             if d:
                 problems.append(f"{tag} output does not echo the given cards: {d}")
             xg = o_.store.get("xgrid")
-            if not (isinstance(xg, dict) and snap(xg.get("grid")) == snap(before_o["interpolation_xgrid"])):
-                problems.append(f"{tag} output grid differs from the requested interpolation_xgrid")
+            used = runner.attrs["configs"].attrs["managers"]["interpolator"].attrs["xgrid"].attrs["raw"]
+            if not (isinstance(xg, dict) and snap(list(xg.get("grid"))) == snap(list(used))):
+                problems.append(f"{tag} output grid {snap(xg.get('grid')) if isinstance(xg, dict) else xg} is not the grid the operators refer to ({snap(list(used))})")
+            if leg != "unsorted-grid" and not (isinstance(xg, dict) and snap(xg.get("grid")) == snap(before_o["interpolation_xgrid"])):
+                problems.append(f"{tag} output grid differs from the requested (ascending) interpolation_xgrid")
             if list(o_.store.get("pids", [])) != [22, -6, -5, -4, -3, -2, -1, 21, 1, 2, 3, 4, 5, 6]:
                 problems.append(f"{tag} output pids are not eko's flavour basis")
             if o_.store.get("projectilePID") != PROJ_PID[spec["projectile"]]:
@@ -266,9 +272,9 @@ def specs(tier, optional=()):
         for target, tmc, (obs, process, projectile), legacy in itertools.product(
             ["proton", "iron", "marble", {"Z": Fraction(1), "A": Fraction(2)}], [0, 1],
             [(["F2_charm", "FL_total"], "NC", "electron"), (["XSHERANC", "F2_total"], "NC", "positron"), (["XSCHORUSCC_charm", "F3_light"], "CC", "neutrino")],
-            ["plain", "none-keys", "qed-keys", "absent-keys", "minimal"],
+            ["plain", "none-keys", "qed-keys", "absent-keys", "minimal", "unsorted-grid"],
         ):
-            if legacy == "minimal" and (tmc or target in ("marble",) or isinstance(target, dict)):
+            if legacy in ("minimal", "unsorted-grid") and (tmc or target in ("marble",) or isinstance(target, dict)):
                 continue
             if tier == "quick":
                 if target == "marble" and legacy != "plain":
